@@ -270,6 +270,9 @@ def prop_C12(run):
     n = lim2_obligations(run, only=lambda key, f: "symbol_format" in key or "format_addrspan" in key)
     rules_mpt.symbol_listing(run)
     rules_mpt.mesen_header_rule(run)
+    # the symbol listings take the children of a scope from a hash map: listed in declaration order only through the sort
+    import rules_det
+    rules_det.det1(run, fns=[f for f in run.prog.real_fns() if (f.raw.get("root") or f.id).startswith("util::symbol_format::")])
     run.rules_run += ["MPT span = write; who may write bits; listings sort spans by offset; symbol listing skips no_emit and sorts by declaration index", "UNIT/SRC for excerpts", "LIM2 on the Mesen offset"]
 
 
